@@ -423,6 +423,23 @@ func TestC04(t *testing.T) {
 		r.Eval(1)
 	}
 	r.Count("operator_grid_lines", 17*len(ipairs)+12*len(fpairs))
+	// lines that are hostile to whatever handles the line text itself (error
+	// messages quote it): lengths around powers of two, multi-byte characters
+	// at and across every such offset, tails of continuation bytes, invalid
+	// UTF-8 — each raising a checked runtime error
+	var hostile []string
+	for _, n := range []int{62, 126, 254, 510, 1022, 4094} {
+		for d := -3; d <= 6; d++ {
+			base := strings.Repeat("a", n+d)
+			hostile = append(hostile, base, base+"é", base+"€", base+"𝟙", base+"\xa9", base+"\x80\x80\x80", base+"\xff", base+"é"+strings.Repeat("\x80", 5))
+		}
+	}
+	r.Guard("runtime errors raised on lines of hostile length / encoding", func() {
+		runProgram(r, "hostile lines", "gauge g\n/^(.*)$/ {\n  g = int($1)\n}\n", hostile, cov, &covMu)
+		runProgram(r, "hostile lines", "counter c by k\n/^(?P<x>.*)$/ {\n  c[$x] += 3 / len(\"\")\n}\n", hostile, cov, &covMu)
+	})
+	r.Eval(2)
+	r.Count("hostile_lines", 2*len(hostile))
 	// one VM over a long input: thousands of distinct values through every
 	// instruction that keeps per-VM state between lines (strptime's memo)
 	var long []string
